@@ -9,21 +9,31 @@ impl Compiler {
         already_freed: &mut HashSet<String>,
     ) -> usize {
         let mut freed = 0;
-        for local in &mut self.locals {
-            if local.is_freed || already_freed.contains(&local.name) {
-                continue;
+        // A call puts the callee's frame right after its own window, so every register above
+        // the window is overwritten: a freed register must never sit below a live one, or the
+        // next call compiled into it destroys the locals above. Only the top of the pool is
+        // released, one dead local at a time.
+        while let Some(top) = self.register_pool.iter().rposition(|&used| used) {
+            let Some(local) = self
+                .locals
+                .iter_mut()
+                .rev()
+                .find(|l| !l.is_freed && l.register as usize == top)
+            else {
+                break;
+            };
+
+            if local.is_captured
+                || already_freed.contains(&local.name)
+                || !liveness.is_dead_after(&local.name, stmt_idx)
+            {
+                break;
             }
 
-            if local.is_captured {
-                continue;
-            }
-
-            if liveness.is_dead_after(&local.name, stmt_idx) {
-                self.register_pool[local.register as usize] = false;
-                local.is_freed = true;
-                already_freed.insert(local.name.clone());
-                freed += 1;
-            }
+            self.register_pool[top] = false;
+            local.is_freed = true;
+            already_freed.insert(local.name.clone());
+            freed += 1;
         }
         freed
     }
